@@ -69,6 +69,22 @@ CLAIMED.update({
             "typestate of check()/model() with a three-valued result + handler audit over the call paths + abstract interpretation of the wrappers"),
 })
 
+CLAIMED.update({
+    "C16": ("§4 C16", "decides: ZRANK.recursion (both copies), WORLD.literals, ZRANK.cache, ZRANK.pure, FACT.shape (both builders), partition "
+                      "mode, ZRANK.refuse, PART.* on `consistency`. Not decided: equality with the operator's answers, solver",
+            "abstract interpretation (solver scopes, decision table, cache typestate) + sibling cross-check"),
+    "C17": ("§4 C17", "decides four clauses: CREP.rank, KEY.no-positional between impacts / η names / conditionals, CHECK.three-way and the "
+                      "objectives at the constructor, C.relations and C.empty-minimum of the solved system. Not decided: Pareto minimality, "
+                      "termination of the front enumeration, relation to c-inference",
+            "abstract interpretation + provenance qualifiers of indices"),
+    "C18": ("§4 C18", "decides: RANK.min, ACCEPT.decision, MARG.bits, COND.filter, TPO.order, WORLD.literals. Assumes: solver, BitVector",
+            "abstract interpretation (accumulator update tables, decision tables, key construction)"),
+    "C20": ("§4 C20", "decides three clauses: SAVE.restore (all exits incl. failing open/dump), IMPACTS.keys, FORMAT.agree (tables over suffix "
+                      "classes x fmt, loader fallbacks followed through exceptional paths). Not decided: pickling across interpreters, equality "
+                      "of continued lazy computation",
+            "typestate with exceptional exits + writer/reader table agreement"),
+})
+
 NA = {
     "C08": "inclusion between operators is a relation between answers of different operators on the same input that follows from theorems "
            "about their definitions; it has no code-shaped clause of its own - its anchored mechanism (same partition, same "
